@@ -5,6 +5,7 @@ import (
 	"go/ast"
 	"go/token"
 	"go/types"
+	"sort"
 	"strings"
 )
 
@@ -448,6 +449,12 @@ func ruleStderrNewline(c *Ctx) {
 
 // ---------- panic-trace flag discipline (part of R-TABLE/levels) ----------
 
+// The flag that turns unprefixed stderr lines into Error records is true at
+// the next read exactly after a `panic:` line (and stays true over unprefixed
+// lines), and false after every [LEVEL] line and every parsed hclog record;
+// an unprefixed line is logged with Error iff the flag is set. Decided with
+// the path domain (constant booleans), so it does not depend on where in the
+// clause structure the assignments sit.
 func rulePanicFlag(c *Ctx) {
 	p := c.P
 	f := p.Fn("Client.logStderr")
@@ -457,60 +464,110 @@ func rulePanicFlag(c *Ctx) {
 	}
 	info := f.Pkg.TypesInfo
 	g := p.Graph(f)
-	// the flag: bool local tested in a default clause
-	var flag *types.Var
-	ast.Inspect(f.Body, func(x ast.Node) bool {
-		cc, ok := x.(*ast.CaseClause)
-		if !ok || cc.List != nil {
-			return true
+	isLogger := func(e ast.Expr) bool {
+		t := info.TypeOf(e)
+		return t != nil && strings.HasSuffix(t.String(), "go-hclog.Logger")
+	}
+	var readN *Node
+	for _, m := range g.Nodes {
+		for _, call := range callsIn(m.Ast) {
+			if strings.HasPrefix(p.CalleeName(f, call), "bufio.Reader.Read") {
+				readN = m
+			}
 		}
-		for _, st := range cc.Body {
-			if ifs, ok := st.(*ast.IfStmt); ok {
-				if v, ok := identObj(info, ifs.Cond).(*types.Var); ok && types.Identical(v.Type(), types.Typ[types.Bool]) {
-					flag = v
+	}
+	// prefix tests: edges on which strings.HasPrefix(line, K) holds / does not hold
+	type pe struct {
+		pre  string
+		t, f *Edge
+	}
+	var prefixes []pe
+	for _, m := range g.Nodes {
+		var cur pe
+		for _, e := range m.Succs {
+			at, ok := edgeAtom(info, e)
+			if !ok || at.Kind != "call" {
+				continue
+			}
+			call := at.X.(*ast.CallExpr)
+			if p.CalleeName(f, call) != "strings.HasPrefix" {
+				continue
+			}
+			k, isK := constString(info, call.Args[1])
+			if !isK {
+				continue
+			}
+			cur.pre = k
+			if at.True {
+				cur.t = e
+			} else {
+				cur.f = e
+			}
+		}
+		if cur.t != nil && cur.f != nil {
+			prefixes = append(prefixes, cur)
+		}
+	}
+	// the flag: the bool local that guards an Error call in the fallback after all prefix tests failed
+	var flag *types.Var
+	for _, m := range g.Nodes {
+		for _, e := range m.Succs {
+			at, ok := edgeAtom(info, e)
+			if !ok || at.Kind != "bool" {
+				continue
+			}
+			if v, isV := identObj(info, at.X).(*types.Var); isV && !v.IsField() && types.Identical(v.Type(), types.Typ[types.Bool]) {
+				for _, px := range prefixes {
+					if px.pre != "panic:" {
+						continue
+					}
+					// within the same iteration: reachable without passing a read
+					seen := g.Reach([]*Node{px.f.To}, func(x *Node) bool {
+						for _, call := range callsIn(x.Ast) {
+							if strings.HasPrefix(p.CalleeName(f, call), "bufio.Reader.Read") {
+								return true
+							}
+						}
+						return false
+					}, nil)
+					if _, ok := seen[m]; ok {
+						flag = v
+					}
 				}
 			}
 		}
-		return true
-	})
-	if flag == nil {
-		c.R.Violate("R-TABLE/levels", p.Pos(f.Node()), f.Name, "panic-trace flag", "no flag selects Error for unprefixed lines inside a panic trace", nil)
+	}
+	if readN == nil || flag == nil || len(prefixes) < 6 {
+		c.R.Violate("R-TABLE/levels", p.Pos(f.Node()), f.Name, "panic-trace flag", fmt.Sprintf("no flag selects Error for unprefixed lines inside a panic trace (read=%v flag=%v prefixes=%d)", readN != nil, flag != nil, len(prefixes)), nil)
 		return
 	}
-	okSet, okReset := true, true
-	nSet, nReset := 0, 0
-	ast.Inspect(f.Body, func(x ast.Node) bool {
-		cc, ok := x.(*ast.CaseClause)
-		if !ok || len(cc.List) != 1 {
-			return true
+	fk := "P:" + varKey(flag)
+	flagAtNextRead := func(from *Node, init Store) (vals map[string]bool) {
+		vals = map[string]bool{}
+		st := p.FeasibleStates(f, []*Node{from}, init, nil, nil, nil, func(x *Node) bool { return x == readN })
+		for _, s := range st[readN] {
+			v := s.Get(fk)
+			if v == "" {
+				v = "?"
+			}
+			vals[v] = true
 		}
-		call, ok := ast.Unparen(cc.List[0]).(*ast.CallExpr)
-		if !ok || p.CalleeName(f, call) != "strings.HasPrefix" {
-			return true
-		}
-		pre, _ := constString(info, call.Args[1])
-		val := ""
-		for _, st := range cc.Body {
-			if as, ok := st.(*ast.AssignStmt); ok && len(as.Lhs) == 1 && identObj(info, as.Lhs[0]) == flag {
-				if id, ok := as.Rhs[0].(*ast.Ident); ok {
-					val = id.Name
-				}
+		return
+	}
+	var probs []string
+	for _, px := range prefixes {
+		for _, start := range []string{"true", "false"} {
+			vals := flagAtNextRead(px.t.To, NewStore().With(fk, start))
+			want := "false"
+			if px.pre == "panic:" {
+				want = "true"
+			}
+			if len(vals) != 1 || !vals[want] {
+				probs = append(probs, fmt.Sprintf("after a %q line (flag was %s) the flag is %v at the next read, want %s", px.pre, start, keysOf(vals), want))
 			}
 		}
-		if pre == "panic:" {
-			nSet++
-			if val != "true" {
-				okSet = false
-			}
-		} else {
-			nReset++
-			if val != "false" {
-				okReset = false
-			}
-		}
-		return true
-	})
-	// a parsed hclog record ends a panic trace: on the parse-success edge the flag is cleared before the next read
+	}
+	// parsed hclog record: the success edge of the JSON parse
 	var parseErr *types.Var
 	var parseN *Node
 	for _, m := range g.Nodes {
@@ -523,48 +580,83 @@ func rulePanicFlag(c *Ctx) {
 			}
 		}
 	}
-	okJSON := false
+	nJSON := 0
 	if parseErr != nil {
-		isClear := func(m *Node) bool {
-			as, ok := m.Ast.(*ast.AssignStmt)
-			if !ok || len(as.Lhs) != 1 || identObj(info, as.Lhs[0]) != flag {
-				return false
-			}
-			id, ok := as.Rhs[0].(*ast.Ident)
-			return ok && id.Name == "false"
-		}
 		for _, m := range g.Nodes {
 			for _, e := range m.Succs {
 				at, ok := edgeAtom(info, e)
 				if !ok || at.Kind != "nil" || at.Op != token.EQL || identObj(info, at.X) != parseErr || !g.Dominates(parseN, m) {
 					continue
 				}
-				seen := g.Reach([]*Node{e.To}, isClear, nil)
-				leak := false
-				for x := range seen {
-					if x.Ast != nil {
-						for _, call := range callsIn(x.Ast) {
-							if p.CalleeName(f, call) == "bufio.Reader.ReadLine" {
-								leak = true
-							}
-						}
-					}
-				}
-				if _, ex := seen[g.Exit]; ex {
-					leak = true
-				}
-				if !leak {
-					okJSON = true
+				nJSON++
+				vals := flagAtNextRead(e.To, NewStore().With(fk, "true"))
+				if len(vals) != 1 || !vals["false"] {
+					probs = append(probs, fmt.Sprintf("after a parsed hclog record the flag is %v at the next read, want false", keysOf(vals)))
 				}
 			}
 		}
 	}
-	if okSet && okReset && nSet == 1 && nReset >= 5 && okJSON {
-		c.R.Hold("R-TABLE/levels", p.Pos(f.Node()), f.Name, "panic-trace flag", "set only by a `panic:` line; cleared by every [LEVEL] line and by every parsed hclog record", true)
-	} else {
-		c.R.Violate("R-TABLE/levels", p.Pos(f.Node()), f.Name, "panic-trace flag",
-			fmt.Sprintf("the flag that turns unprefixed lines into Error records is not set exactly by `panic:` lines and cleared by every other recognised line (set=%v/%d reset=%v/%d clearedByJSON=%v): lines after a panic trace keep being logged as errors", okSet, nSet, okReset, nReset, okJSON), nil)
+	if nJSON == 0 {
+		probs = append(probs, "the JSON parse success edge was not found")
 	}
+	// unprefixed line: Error iff flag. Start where the last prefix test failed.
+	var lastFalse *Node
+	for _, px := range prefixes {
+		isLast := true
+		within := g.Reach([]*Node{px.f.To}, func(x *Node) bool { return x == readN }, nil)
+		for _, py := range prefixes {
+			if _, r := within[py.t.From]; r && py.t != px.t {
+				isLast = false
+			}
+		}
+		if isLast {
+			lastFalse = px.f.To
+		}
+	}
+	if lastFalse == nil {
+		probs = append(probs, "the fallback after the prefix tests was not found")
+	} else {
+		for _, start := range []string{"true", "false"} {
+			st := p.FeasibleStates(f, []*Node{lastFalse}, NewStore().With(fk, start), func(x *Node) bool { return x == readN }, nil, nil, nil)
+			methods := map[string]bool{}
+			for m := range st {
+				if m.Ast == nil {
+					continue
+				}
+				for _, call := range callsIn(m.Ast) {
+					if se, ok := call.Fun.(*ast.SelectorExpr); ok && isLogger(se.X) {
+						methods[se.Sel.Name] = true
+					}
+				}
+			}
+			want := "Debug"
+			if start == "true" {
+				want = "Error"
+			}
+			if len(methods) != 1 || !methods[want] {
+				probs = append(probs, fmt.Sprintf("an unprefixed line with the flag %s is logged with %v, want %s", start, keysOf(methods), want))
+			}
+			// and keeps the flag
+			vals := flagAtNextRead(lastFalse, NewStore().With(fk, start))
+			if len(vals) != 1 || !vals[start] {
+				probs = append(probs, fmt.Sprintf("an unprefixed line changes the flag from %s to %v", start, keysOf(vals)))
+			}
+		}
+	}
+	if len(probs) == 0 {
+		c.R.Hold("R-TABLE/levels", p.Pos(f.Node()), f.Name, "panic-trace flag", fmt.Sprintf("true at the next read exactly after a `panic:` line, false after each of the other %d prefixes and after a parsed hclog record; unprefixed lines are logged with Error iff it is set and leave it unchanged", len(prefixes)-1), true)
+	} else {
+		c.R.Violate("R-TABLE/levels", p.Pos(f.Node()), f.Name, "panic-trace flag", "the panic-trace fallback level is wrong: "+strings.Join(probs, "; "), nil)
+	}
+}
+
+func keysOf(m map[string]bool) []string {
+	var out []string
+	for k := range m {
+		out = append(out, k)
+	}
+	sort.Strings(out)
+	return out
 }
 
 // ---------- the context given to runner.Kill never expires ----------
